@@ -47,6 +47,10 @@ NA = "n/a"
 # 0: the unrepaired code (VERIF_REPO must point at a tree without those commits): model at fixed=false, failures of the
 # classes C06-F1..F6 are attributed to the recorded (now repaired) defects.
 FIXED = int(os.environ.get("VERIF_C06_FIXED", "1"))
+# 1 (default): _handle_transforms leaves the pandas 'category' dtype on self._dataframe (the code as it is, finding
+# C06-F7); 0: the tree under test works on a copy (proposed one-line repair) -- the model then runs with keepcat=false,
+# generated histories also edit categorical columns and no set_cell failure is accepted.
+KEEPCAT = int(os.environ.get("VERIF_C06_KEEPCAT", "0"))   # fix: commit in /repo (category dtype no longer kept)
 LEGACY_FINDINGS = {
     "C06-F1": "an empty referenced-column text (n/a/empty/unknown categorical cell) substituted literally: '{cat}, Square' -> ', Square'",
     "C06-F2": "digits-only reference used un-escaped in the pattern ({1} is a quantifier): 'Red, {1}, Blue' -> 'Red{1}Blue'; {0} raises",
@@ -672,6 +676,226 @@ for _c in CORPUS:
     _c["stream"] = "corpus"
 
 
+# ------------------------------------------------------------------ histories on ONE TabularInput object
+
+class _Text:
+    """stands for the HedString argument of BaseInput.set_cell (only get_as_form is used by it)"""
+
+    def __init__(self, t):
+        self.t = t
+
+    def get_as_form(self, tag_form):
+        return self.t
+
+
+def gen_sidecar(rng, names, has_hed):
+    """a structurally valid sidecar over the given column names (as gen_valid builds them)"""
+    kinds = {nm: rng.choice(["categorical", "categorical", "value", "value", "ignore"]) for nm in names}
+    usable = [nm for nm in names if kinds[nm] != "ignore"] + (["HED"] if has_hed else [])
+    hosts = [nm for nm in names if kinds[nm] != "ignore"]
+    host, refd = None, []
+    nrefs = rng.choice([0, 1, 1, 1, 2])
+    if hosts and nrefs and len(usable) > 1:
+        host = rng.choice(hosts)
+        cands = [u for u in usable if u != host]
+        refd = rng.sample(cands, min(nrefs, len(cands)))
+    sc = {}
+    for nm in names:
+        extra = ["{" + x + "}" for x in refd] if nm == host else []
+        if kinds[nm] == "categorical":
+            d = {}
+            for j, k in enumerate(rng.sample(["go", "stop", "left"], rng.randint(1, 3))):
+                d[k] = gen_tree_text(rng, extra if (j == 0 or rng.random() < 0.5) else [], 1)
+            sc[nm] = {"HED": d}
+        elif kinds[nm] == "value":
+            sc[nm] = {"HED": gen_tree_text(rng, extra + [rng.choice(VALUE_TEMPLATES[:2])], 1) if extra
+                      else rng.choice(VALUE_TEMPLATES)}
+        else:
+            sc[nm] = {"Description": "x"}
+    return sc
+
+
+def gen_history(rng):
+    """one table, 2-3 sidecars over the same columns, and a sequence of assemble / reset_column_mapper / set_cell"""
+    names = rng.sample(NAMES, rng.randint(2, 4))
+    has_hed = rng.random() < 0.5
+    sidecars = [gen_sidecar(rng, names, has_hed) for _ in range(rng.randint(2, 3))]
+    if rng.random() < 0.15:
+        sidecars.append(None)
+    cols = list(names) + (["HED"] if has_hed else []) + (["onset"] if rng.random() < 0.3 else [])
+    rng.shuffle(cols)
+    pool = ["go", "stop", "left", NA, "", "zzz", "3", "abc"]
+    hedpool = ["Red", "(Blue, Green)", NA, ""]
+    rows = [[rng.choice(hedpool if c == "HED" else pool) for c in cols] for _ in range(rng.randint(1, 3))]
+    ops = [["assemble"]]
+    for _ in range(rng.randint(2, 6)):
+        x = rng.random()
+        if x < 0.45:
+            ops.append(["reset", rng.randrange(len(sidecars))])
+            ops.append(["assemble"])
+        elif x < 0.75:
+            ops.append(["assemble"])
+        else:
+            # cells of columns that are categorical under one of the sidecars are edited only in HISTORY_CORPUS:
+            # once an assembly left the 'category' dtype on such a column, pandas refuses the edit (finding C06-F7:
+            # TypeError for a new category; for an existing one it depends on pandas-internal read-only flags)
+            ok_cols = [j for j, c in enumerate(cols)
+                       if not KEEPCAT or not any(isinstance(sc, dict) and isinstance(sc.get(c), dict) and isinstance(sc[c].get("HED"), dict)
+                                  for sc in sidecars)]
+            if ok_cols:
+                c = rng.choice(ok_cols)
+                ops.append(["set_cell", rng.randrange(len(rows)), c, rng.choice(hedpool if cols[c] == "HED" else pool)])
+    if ops[-1][0] != "assemble":
+        ops.append(["assemble"])
+    return {"sidecars": sidecars, "columns": cols, "rows": rows, "ops": ops, "stream": "history"}
+
+
+HISTORY_CORPUS = [
+    # references of sidecar A must not survive the switch to sidecar B (and back)
+    {"sidecars": [{"cat": {"HED": {"go": "Red", "stop": "Blue"}}, "response_time": {"HED": "Label/#"},
+                   "val": {"HED": "({cat}, Label/#)"}},
+                  {"cat": {"HED": {"go": "Red", "stop": "Blue"}}, "response_time": {"HED": "Duration/# s"},
+                   "val": {"HED": "({response_time}, Label/#)"}}],
+     "columns": ["cat", "response_time", "val"], "rows": [["go", "3", "x"], ["stop", NA, "y"]],
+     "ops": [["assemble"], ["reset", 1], ["assemble"], ["assemble"], ["reset", 0], ["assemble"], ["reset", None], ["assemble"]]},
+    # C06-F7: a cell of a categorical column set to a new value after an assembly
+    {"sidecars": [{"cat": {"HED": {"go": "Red", "stop": "Blue"}}}],
+     "columns": ["cat", "HED"], "rows": [["go", "Green"], ["go", NA]],
+     "ops": [["assemble"], ["set_cell", 1, 0, "stop"], ["assemble"], ["set_cell", 0, 1, "Square"], ["assemble"]]},
+    # edits before any assembly are always accepted
+    {"sidecars": [{"cat": {"HED": {"go": "Red", "stop": "Blue"}}}],
+     "columns": ["cat"], "rows": [["go"], ["go"]], "ops": [["set_cell", 1, 0, "stop"], ["assemble"]]},
+]
+for _c in HISTORY_CORPUS:
+    _c["stream"] = "history-corpus"
+
+
+def _mk_sidecar(d):
+    from hed.models.sidecar import Sidecar
+    return None if d is None else Sidecar(io.StringIO(json.dumps(d)))
+
+
+def impl_history(case):
+    """run the operations on ONE TabularInput; after every assembly also assemble a FRESH object that holds the
+    current table and the current sidecar"""
+    import pandas as pd
+    from hed.models.tabular_input import TabularInput
+    out = {"steps": []}
+    try:
+        cols = case["columns"]
+        cur_rows = [list(r_) for r_ in case["rows"]]
+        cur = case["sidecars"][0]
+        t = TabularInput(pd.DataFrame(cur_rows, columns=cols, dtype=str), sidecar=_mk_sidecar(cur))
+        for op in case["ops"]:
+            st = {"op": op}
+            try:
+                if op[0] == "assemble":
+                    st["refs"] = list(t.get_column_refs())
+                    ser = t.series_a
+                    st["series"] = [str(x) for x in ser.tolist()]
+                    st["series_is_str"] = all(isinstance(x, str) for x in ser.tolist())
+                    st["rows"] = [list(r_) for r_ in cur_rows]
+                    st["sidecar"] = cur
+                    fresh = TabularInput(pd.DataFrame(cur_rows, columns=cols, dtype=str), sidecar=_mk_sidecar(cur))
+                    st["fresh"] = [str(x) for x in fresh.series_a.tolist()]
+                elif op[0] == "reset":
+                    cur = None if op[1] is None else case["sidecars"][op[1]]
+                    t.reset_column_mapper(_mk_sidecar(cur))
+                elif op[0] == "set_cell":
+                    t.set_cell(op[1], op[2], _Text(op[3]))
+                    cur_rows[op[1]][op[2]] = op[3]
+            except Exception as e:  # noqa
+                st["exn"] = exn_name(e)
+                st["exn_text"] = f"{type(e).__name__}: {e}"[:160]
+            out["steps"].append(st)
+        out["table_after"] = _vals(t.dataframe)
+        out["table_expected"] = cur_rows
+    except Exception as e:  # noqa
+        out["setup_exn"] = f"{type(e).__name__}: {e}"[:200]
+    return out
+
+
+def oracle_history(case, h, res, counts):
+    """same answer whatever happened before: every assembly equals that of a fresh object with the current table and
+    the current sidecar, and (inside the statement's domain) the union that sidecar prescribes"""
+    pub = public_case(case)
+    if "setup_exn" in h:
+        res.report("constructs", pub, h["setup_exn"])
+        return
+    assembled_cat = set()        # columns that were categorical under a sidecar current at an earlier assembly
+    cur = case["sidecars"][0]
+    for k, st in enumerate(h["steps"]):
+        op = st["op"]
+        where = dict(pub, step=k)
+        if op[0] == "reset":
+            cur = None if op[1] is None else case["sidecars"][op[1]]
+        if "exn" in st:
+            fid = None
+            if (KEEPCAT and op[0] == "set_cell" and case["columns"][op[2]] in assembled_cat
+                    and ((st["exn"] == "TypeError" and "Categorical" in st["exn_text"])
+                         or (st["exn"] == "ValueError" and "read-only" in st["exn_text"]))):
+                fid = "C06-F7"
+            res.report("history-" + op[0] + "-raises", where, st["exn_text"], fid=fid)
+            counts["fail:" + str(fid)] = counts.get("fail:" + str(fid), 0) + 1
+            continue
+        if op[0] != "assemble":
+            continue
+        for c in case["columns"]:
+            if isinstance(cur, dict) and col_kind(cur.get(c)) == "categorical" or \
+               (isinstance(cur, dict) and isinstance(cur.get(c), dict) and isinstance(cur[c].get("HED"), dict)):
+                assembled_cat.add(c)
+        if st["series"] != st["fresh"]:
+            res.report("history-same-answer", where,
+                       f"step {k}: object gives {st['series']}, a fresh object with the current table and sidecar {st['fresh']}")
+            continue
+        pseudo = {"sidecar": cur or {}, "columns": case["columns"], "rows": st["rows"], "_loaded_rows": st["rows"]}
+        if oracle_domain(pseudo, case["columns"]) is None and len(st["series"]) == len(st["rows"]):
+            for i, row in enumerate(st["rows"]):
+                got = st["series"][i]
+                if not wf_delim(got) or parse_tree(got) != expected_row(pseudo, case["columns"], row):
+                    res.report("history-row-is-union", dict(where, row=i),
+                               f"step {k} row {i}: got {got!r} expected tree {expected_row(pseudo, case['columns'], row)!r}")
+    if h.get("table_after") != h.get("table_expected"):
+        res.report("history-table", pub, f"table {h.get('table_after')} expected {h.get('table_expected')}")
+
+
+def history_sx(case, h, fixed):
+    def scsx(sc):
+        return "(" + " ".join("(" + S(k) + " " + jv_sx(v) + ")" for k, v in (sc or {}).items()) + ")"
+    cols, rows = case["columns"], case["rows"]
+    tb = "(" + str(len(rows)) + " (" + " ".join(
+        "(" + S(n) + " (" + " ".join(S(row[j]) for row in rows) + "))" for j, n in enumerate(cols)) + "))"
+    ops = []
+    for st in h["steps"]:
+        op = st["op"]
+        if op[0] == "assemble":
+            ops.append("(A (" + " ".join(S(r_) for r_ in st.get("refs", [])) + "))")
+        elif op[0] == "reset":
+            ops.append("(S " + scsx(None if op[1] is None else case["sidecars"][op[1]]) + ")")
+        else:
+            ops.append(f"(C {op[1]} {op[2]} {S(op[3])})")
+    return f"(H {1 if fixed else 0} {1 if KEEPCAT else 0} {scsx(case['sidecars'][0])} {tb} (" + " ".join(ops) + "))"
+
+
+def compare_history(h, m):
+    diffs = []
+    if len(m) != len(h["steps"]):
+        return [f"driver: {m}"]
+    for k, (st, o) in enumerate(zip(h["steps"], m)):
+        if o[0] == "rows":
+            got = [C.uncps(x) for x in o[1]]
+            if "exn" in st:
+                diffs.append(f"step {k}: impl raises {st['exn_text']}, model returns")
+            elif st["op"][0] != "assemble" or st["series"] != got:
+                diffs.append(f"step {k}: impl={st.get('series')} model={got}")
+        elif o[0] == "exn":
+            if st.get("exn") != o[1]:
+                diffs.append(f"step {k}: model raises {o[1]}, impl {st.get('exn_text', 'returns')}")
+        elif "exn" in st:
+            diffs.append(f"step {k}: impl raises {st['exn_text']}, model does not")
+    return diffs
+
+
 # ------------------------------------------------------------------ replace_ref: exhaustive comparison with re.sub
 
 def fixed_replace_ref(text, oldvalue, newvalue="n/a"):
@@ -878,11 +1102,18 @@ def _run(tier, seed, res, model_ok, proof_ok, rng, scratch):
         c["_id"] = i
         c["_scratch"] = scratch
 
+    # histories on one object (only for the repaired code: the tree under test is the current one)
+    nhist = (250 if tier == "quick" else 4000) * (1 if proof_ok else 3)
+    hcases = ([copy.deepcopy(c) for c in HISTORY_CORPUS] + [gen_history(rng) for _ in range(nhist)]) if FIXED else []
+
     counts = {}
     with Pool(int(C.JOBS)) as pool:
         impls = pool.map(impl_case, cases, chunksize=20)
         for c, r in zip(cases, impls):
             oracle(c, r, res, counts)
+        himpls = pool.map(impl_history, hcases, chunksize=10)
+        for c, h in zip(hcases, himpls):
+            oracle_history(c, h, res, counts)
 
         disagreements = 0
         regex_total, plan = 0, []
@@ -900,6 +1131,13 @@ def _run(tier, seed, res, model_ok, proof_ok, rng, scratch):
                 if diffs:
                     disagreements += 1
                     res.violation("correspondence", public_case(cases[i]), "; ".join(diffs)[:1500], no_input=True)
+            hidx = [i for i, h in enumerate(himpls) if "setup_exn" not in h]
+            houts = C.run_driver(exe, [history_sx(hcases[i], himpls[i], bool(FIXED)) for i in hidx], shards=int(C.JOBS))
+            for i, m in zip(hidx, houts):
+                diffs = compare_history(himpls[i], m)
+                if diffs:
+                    disagreements += 1
+                    res.violation("correspondence-history", public_case(hcases[i]), "; ".join(diffs)[:1500], no_input=True)
             # the repaired model satisfies the statement on the in-domain cases (validates fixed=true + the oracle)
             dom_idx = [i for i in idx if oracle_domain(cases[i], impls[i]["loaded"][1]) is None]
             flines = [case_sx(True, cases[i]["sidecar"], impls[i]["loaded"][1],
@@ -921,6 +1159,8 @@ def _run(tier, seed, res, model_ok, proof_ok, rng, scratch):
                                   f"repaired model does not meet the statement: {m[:2]}", no_input=True)
 
     hist = {}
+    hist["history"] = len(hcases)
+    hist["history_assemblies"] = sum(1 for c in hcases for o in c["ops"] if o[0] == "assemble")
     for c in cases:
         hist[c.get("stream", "?")] = hist.get(c.get("stream", "?"), 0) + 1
     hist.update(counts)
@@ -930,7 +1170,8 @@ def _run(tier, seed, res, model_ok, proof_ok, rng, scratch):
     distinct = len({json.dumps(public_case(c), sort_keys=True) for c, r in zip(cases, impls) if nontrivial(c, r)})
     rows_total = sum(len(c["rows"]) for c in cases)
     return {
-        "evaluations": len(cases) + regex_total,
+        "evaluations": len(cases) + regex_total + len(hcases),
+        "history_cases": len(hcases),
         "assembly_cases": len(cases),
         "assembly_rows": rows_total,
         "replace_ref_strings": regex_total,
@@ -951,6 +1192,19 @@ def _run(tier, seed, res, model_ok, proof_ok, rng, scratch):
 
 def replay(payload):
     case = payload.get("case")
+    if case and "ops" in case:
+        case = {k: v for k, v in case.items() if k not in ("step", "row")}
+        h = impl_history(case)
+        res = C.Result(PROP)
+        res.known_ids = {f["id"]: f for f in C.known_findings().get("findings", []) if f.get("property") == PROP}
+        oracle_history(case, h, res, {})
+        for st in h.get("steps", []):
+            print("step:", st["op"], st.get("series", st.get("exn_text", "")), "fresh:", st.get("fresh", ""))
+        for fid, n in sorted(res.known.items()):
+            print(f"KNOWN-FINDING: property={PROP} {fid} (hit {n}x)")
+        for v in res.violations:
+            print("FAILS:", v["clause"], v["detail"])
+        return 1 if res.violations else 0
     if not case or "sidecar" not in case:
         print("no concrete assembly input in replay:", str(payload.get("case"))[:300], str(payload.get("detail", ""))[:500])
         if case and "text" in case:
